@@ -23,6 +23,12 @@ EXHAUSTIVE_NOTE = ""
 TRUSTED = ["Model/CDS.lean is hand-written; tied to gene/cds.py by this run's correspondence",
            "Gen.CDSFrame_shift / CDSFrame_to_phase / CDSPhase_to_frame and the codon tables are regenerated from source",
            "Model/Location.lean (C01) for the coordinate maps the CDS code calls"]
+# codon listing / windowed codon scans / sequences / translations of CDSs built on a SEQUENCE CHUNK, with and without a
+# call history (chunk-relative or chromosome views evaluated first: trailing @k / @c), are driven by C07's operations
+BORROW = [dict(prop="c07", max=5000, ops={"ccodons", "kcodons", "kwcodons", "cwcodons", "cdsseq", "prot", "kframes"},
+               why="C05 observe_at: codon Location tuples, extract_sequence(), translate(), frames on chunk-built CDSs and "
+                   "after earlier codon listings (the lru-cached / flag-switched paths of cds.py)")]
+
 ASSUMPTIONS = ["CDS on a whole chromosome (sequence-chunk parents are C07)",
                "exons of positive length, sorted, not overlapping (0-bp gaps included); frame values 0/1/2",
                "sequence letters are IUPAC nucleotides in either case (no gap characters inside a CDS)",
